@@ -237,6 +237,10 @@ func mergeIOSACLs(ab *cmdsPair, name, prefix string) {
 	// Store changed ACL.
 	b0 := ab.bCmds[0]
 	b0.sub = acl
+	// Lines from Netspoc are now subcommands of ACL from raw.
+	for _, c := range acl {
+		c.subCmdOf = b0
+	}
 	ab.a.lookup[prefix][name] = []*cmd{b0}
 }
 
